@@ -77,15 +77,23 @@ func (sf ScrubFields) Clean(payload map[string]interface{}) {
 
 func (sf ScrubFields) clean(payload map[string]interface{}, path []string, fields map[string][]string) bool {
 	if len(path) == 0 {
-		for typename, fields := range fields {
-			if tn, ok := payload[common.TypenameFieldName]; ok && typename != tn {
-				continue
-			}
+		if tn, ok := payload[common.TypenameFieldName]; ok {
+			for typename, fields := range fields {
+				if typename != tn {
+					continue
+				}
 
-			for _, f := range fields {
+				for _, f := range fields {
+					delete(payload, f)
+				}
+				break
+			}
+		} else {
+			// the type of the object is not known: only what is scrubbed for every
+			// possible type can be removed, whatever the iteration order of the map
+			for _, f := range fieldsOfEveryType(fields) {
 				delete(payload, f)
 			}
-			break
 		}
 		return len(payload) == 0
 	}
@@ -131,4 +139,19 @@ func (sf ScrubFields) clean(payload map[string]interface{}, path []string, field
 	}
 
 	return len(payload) == 0
+}
+
+// fieldsOfEveryType returns the fields which are listed for each of the types
+func fieldsOfEveryType(fields map[string][]string) []string {
+	var res []string
+	isFirst := true
+	for _, fs := range fields {
+		if isFirst {
+			res = append(res, fs...)
+			isFirst = false
+			continue
+		}
+		res = lo.Intersect(res, fs)
+	}
+	return res
 }
